@@ -1,5 +1,134 @@
 import XsVerif.Driver.Util
-open Lean XsVerif.Driver
+import XsVerif.Model.Attributes
+open Lean XsVerif.Driver XsVerif.Wildcard XsVerif.Attributes
 
--- stub: replaced when the model of C03 lands
-def main : IO Unit := XsVerif.Driver.run fun _ => .error "C03 driver not implemented"
+/-
+  Line protocol of C03.  Request:
+    {"decls":[D..], "any": null | {"wc":W,"pc":"strict|lax|skip"}, "globals":[D..], "loaded":[ns..],
+     "cases":[[[[ns,loc],value]..]..], "opts":[[useDefaults,fillMissing]..], "both":b,
+     "valid":[[ty,lex]..], "cls":[[ty,lex,classId]..]}
+    D = {"n":[ns,loc],"use":"optional|required|prohibited","fixed":null|str,"default":null|str,"ty":k,"same":b}
+    W = wildcard as in C16 ({"ns":"any"|"other"|[..],"notNs":[..],"notQ":[[ns,loc]..],"nd":b,"nsib":b,"tns":str})
+  Answer:
+    {"errors":[[kind,ns,loc]..]   in collection order,
+     "decoded":[[ns,loc,"t",ty,raw] | [ns,loc,"r",raw] | [ns,loc,"n"]]   in result order,
+    (see `handle` for the batching)
+-/
+namespace XsVerif.Driver.C03
+
+def parseQN (j : Json) : Except String QN := do
+  let a ← j.getArr?
+  if h : a.size = 2 then
+    return ⟨← a[0].getStr?, ← a[1].getStr?⟩
+  else throw "qname"
+
+def parseWc (j : Json) : Except String Wc := do
+  let nsj ← j.getObjVal? "ns"
+  let ns ← match nsj with
+    | .str "any" => pure NsC.any
+    | .str "other" => pure NsC.other
+    | .arr a => NsC.set <$> a.toList.mapM (·.getStr?)
+    | _ => throw "ns"
+  let notNs ← getStrList j "notNs"
+  let nq ← getArr j "notQ"
+  let notQ ← nq.toList.mapM parseQN
+  return { ns, notNs, notQ, notDefined := ← getBool j "nd", notSibling := ← getBool j "nsib",
+           tns := ← getStr j "tns" }
+
+def parsePC (s : String) : Except String PC :=
+  match s with
+  | "strict" => pure .strict | "lax" => pure .lax | "skip" => pure .skip | _ => throw "pc"
+
+def optStr (j : Json) (k : String) : Except String (Option String) := do
+  match j.getObjVal? k with
+  | .ok (.str s) => pure (some s)
+  | .ok .null => pure none
+  | .ok _ => throw s!"{k}: string or null expected"
+  | .error _ => pure none
+
+def parseDecl (j : Json) : Except String Decl := do
+  let name ← parseQN (← j.getObjVal? "n")
+  let use ← match (← getStr j "use") with
+    | "optional" => pure Use.optional | "required" => pure Use.required
+    | "prohibited" => pure Use.prohibited | _ => throw "use"
+  return { name, use, fixed := ← optStr j "fixed", dflt := ← optStr j "default", ty := ← getNat j "ty",
+           sameSchema := ← getBool j "same" }
+
+def parseAny (j : Json) : Except String (Option AnyAttr) := do
+  match j with
+  | .null => pure none
+  | _ => return some { wc := ← parseWc (← j.getObjVal? "wc"), pc := ← parsePC (← getStr j "pc") }
+
+def errJ (k : String) (n : QN) : Json := Json.arr #[k, n.ns, n.loc]
+
+def errToJson : Err → Json
+  | .missing n => errJ "missing" n
+  | .notAllowed n => errJ "notAllowed" n
+  | .notXsi n => errJ "notXsi" n
+  | .prohibited n => errJ "prohibited" n
+  | .fixedMismatch n => errJ "fixed" n
+  | .invalidValue n => errJ "invalid" n
+  | .wildcardDenied n => errJ "denied" n
+  | .notFound n => errJ "notFound" n
+  | .unavailableNs n => errJ "unavailable" n
+
+def itemToJson : Item → Json
+  | (n, .typed ty raw) => Json.arr #[n.ns, n.loc, "t", ty, raw]
+  | (n, .raw s) => Json.arr #[n.ns, n.loc, "r", s]
+  | (n, .nil) => Json.arr #[n.ns, n.loc, "n"]
+
+def parseTable (j : Json) : Except String (List (Nat × String)) := do
+  let a ← j.getArr?
+  a.toList.mapM fun e => do
+    let p ← e.getArr?
+    if h : p.size = 2 then return (← p[0].getNat?, ← p[1].getStr?) else throw "valid entry"
+
+def parseCls (j : Json) : Except String (List (Nat × String × Nat)) := do
+  let a ← j.getArr?
+  a.toList.mapM fun e => do
+    let p ← e.getArr?
+    if h : p.size = 3 then return (← p[0].getNat?, ← p[1].getStr?, ← p[2].getNat?) else throw "cls entry"
+
+def mkSem (valid : List (Nat × String)) (cls : List (Nat × String × Nat)) : Sem where
+  validT t x := valid.contains (t, x)
+  valueEq t a b :=
+    match cls.find? (fun e => e.1 == t && e.2.1 == a), cls.find? (fun e => e.1 == t && e.2.1 == b) with
+    | some ea, some eb => ea.2.2 == eb.2.2
+    | _, _ => false
+
+def parseAttrs (j : Json) : Except String (List Attr) := do
+  (← j.getArr?).toList.mapM fun e => do
+    let p ← e.getArr?
+    if h : p.size = 2 then return ((← parseQN p[0], ← p[1].getStr?) : Attr) else throw "attr"
+
+def parseOpt (j : Json) : Except String (Bool × Bool) := do
+  let p ← j.getArr?
+  if h : p.size = 2 then return (← p[0].getBool?, ← p[1].getBool?) else throw "opts"
+
+/-- one request = one built group with a batch of attribute sets and option pairs
+    `[useDefaults, fillMissing]`; answer `res[case][opt] = {"rep":R, "leg":R?}` with
+    `R = {"errors":[..],"decoded":[..]}` for the repaired (`rep`) and the pinned (`leg`, only when
+    `"both":true`) algorithm. -/
+def handle (j : Json) : Except String Json := do
+  let decls ← (← getArr j "decls").toList.mapM parseDecl
+  let any ← parseAny (← j.getObjVal? "any")
+  let globals ← (← getArr j "globals").toList.mapM parseDecl
+  let loaded ← getStrList j "loaded"
+  let cases ← (← getArr j "cases").toList.mapM parseAttrs
+  let opts ← (← getArr j "opts").toList.mapM parseOpt
+  let both ← getBool j "both"
+  let sem := mkSem (← parseTable (← j.getObjVal? "valid")) (← parseCls (← j.getObjVal? "cls"))
+  let env : Env := { globals, loaded }
+  let G : Group := { decls, any }
+  let one (o : Opts) (attrs : List Attr) : Json :=
+    Json.mkObj [("errors", Json.arr ((errors sem env o G attrs).map errToJson).toArray),
+                ("decoded", Json.arr ((decoded env o G attrs).map itemToJson).toArray)]
+  let res := cases.map fun attrs => Json.arr (opts.map fun (ud, fm) =>
+    let rep := one { useDefaults := ud, fillMissing := fm, legacy := false } attrs
+    if both then Json.mkObj [("rep", rep), ("leg", one { useDefaults := ud, fillMissing := fm, legacy := true } attrs)]
+    else Json.mkObj [("rep", rep)]).toArray
+  return Json.mkObj [("res", Json.arr res.toArray)]
+
+end XsVerif.Driver.C03
+
+def main : IO Unit := XsVerif.Driver.run XsVerif.Driver.C03.handle
